@@ -5,8 +5,11 @@ import (
 	"errors"
 	"fmt"
 	"io"
+	"os"
 	"strings"
 	"time"
+
+	bebop "github.com/200sc/bebop"
 
 	"verif/driver"
 	"verif/explore"
@@ -87,6 +90,73 @@ func streamEncoding(b *driver.Bound, rv *refcodec.RecValue) ([]byte, error) {
 }
 
 // ---- C05: DecodeBebop consumes exactly one record under any read fragmentation -------------------
+
+// osFileStream decodes the records of data one after the other from a regular file (checking the file offset after each
+// record) and from a pipe (checking that nothing is left in it).
+func (w *W) osFileStream(data []byte, ends []int, wants []string, mk func(i int) bebop.Record, norm func(i int, r bebop.Record) (string, error)) (string, string) {
+	fh, err := os.CreateTemp("", "verif-c05-*")
+	if err != nil {
+		return "harness", err.Error()
+	}
+	defer os.Remove(fh.Name())
+	defer fh.Close()
+	if _, err := fh.Write(data); err != nil {
+		return "harness", err.Error()
+	}
+	if _, err := fh.Seek(0, io.SeekStart); err != nil {
+		return "harness", err.Error()
+	}
+	for i := range ends {
+		out := mk(i)
+		o := driver.Guard(func() error { return out.DecodeBebop(fh) })
+		if o.Panicked || o.Err != nil {
+			return "decode-fails|" + failKind(o), fmt.Sprintf("record %d read from an *os.File: DecodeBebop failed: %s", i, outcomeStr(o))
+		}
+		pos, _ := fh.Seek(0, io.SeekCurrent)
+		if int(pos) != ends[i] {
+			return "position", fmt.Sprintf("after record %d the *os.File is at offset %d, the record ends at %d", i, pos, ends[i])
+		}
+		gs, err := norm(i, out)
+		if err != nil {
+			return "harness", err.Error()
+		}
+		if gs != wants[i] {
+			return "value", fmt.Sprintf("record %d read from an *os.File decoded as %s, want %s", i, vlib.Short(gs, 200), vlib.Short(wants[i], 200))
+		}
+	}
+	w.res.Extra["os_file_streams"]++
+	if len(data) > 32<<10 {
+		return "", "" // a pipe buffer holds 64 KiB; larger streams would need a writer goroutine
+	}
+	pr, pw, err := os.Pipe()
+	if err != nil {
+		return "harness", err.Error()
+	}
+	defer pr.Close()
+	if _, err := pw.Write(data); err != nil {
+		pw.Close()
+		return "harness", err.Error()
+	}
+	pw.Close()
+	for i := range ends {
+		out := mk(i)
+		o := driver.Guard(func() error { return out.DecodeBebop(pr) })
+		if o.Panicked || o.Err != nil {
+			return "decode-fails|" + failKind(o), fmt.Sprintf("record %d read from a pipe: DecodeBebop failed: %s", i, outcomeStr(o))
+		}
+		gs, err := norm(i, out)
+		if err != nil {
+			return "harness", err.Error()
+		}
+		if gs != wants[i] {
+			return "value", fmt.Sprintf("record %d read from a pipe decoded as %s, want %s", i, vlib.Short(gs, 200), vlib.Short(wants[i], 200))
+		}
+	}
+	if rest, _ := io.ReadAll(pr); len(rest) != 0 {
+		return "position", fmt.Sprintf("%d bytes were left in the pipe after the last record", len(rest))
+	}
+	return "", ""
+}
 
 func (w *W) c05(groups [][]*driver.Bound) {
 	guard := []byte{0xde, 0xad, 0xbe, 0xef, 0xde, 0xad, 0xbe, 0xef}
@@ -192,6 +262,24 @@ func (w *W) c05(groups [][]*driver.Bound) {
 							return "over-read", fmt.Sprintf("the decoder read %d bytes beyond the records", cr.MaxPos-total)
 						}
 						return "", ""
+					}
+					// the same stream from a real *os.File and through an os.Pipe: concrete reader types a decoder may
+					// special-case (the position of a file is observable with Seek; a pipe must be left empty)
+					if si == 0 && !withGuard {
+						if kind, msg := w.osFileStream(data, ends, wants, func(i int) bebop.Record { return st[i].b.New() }, func(i int, r bebop.Record) (string, error) {
+							got, err := st[i].b.Extract(r)
+							if err != nil {
+								return "", err
+							}
+							return refcodec.NormalRec(got), nil
+						}); kind == "harness" {
+							w.res.HarnessErr = msg
+							return
+						} else if kind != "" {
+							m := caseInfo(b, st[len(st)-1].rv)
+							m["stream"] = vlib.Hex(data)
+							w.report(fmt.Sprintf("C05|%s|%s|os-file", kind, b.Case.Class), msg, m)
+						}
 					}
 					bound := 2
 					if w.thorough {
